@@ -16,6 +16,10 @@ import Upnp.Lemmas.C14Desc
 import Upnp.Lemmas.C14Svc
 import Upnp.Lemmas.C14Dev
 import Upnp.Lemmas.C14Bridge
+import Upnp.Lemmas.C14DevBridge
+import Upnp.Props.C05
+import Upnp.Lemmas.C14Call06
+import Upnp.Props.C06
 import Upnp.Gen.C08Types
 namespace Upnp.C14
 open Upnp PyDict
@@ -320,6 +324,127 @@ theorem client_sees_definition_c05 (nonStrict : Bool) (fs : Facts) (vars : List 
     subst hl
     simpa [List.map_map, Function.comp_def, specOfAct] using han
 
+/-- **Device document and tree composed with C05: `createDevice (serve (serialize d)) = mirror (denote d)`.**
+    `serve14` is the C14 server as a requester: the device document (`serializeRoot`) at `base`, every
+    service's SCPD (`serializeScpd` of its constructed variables and actions, `body`) at its resolved
+    URL, 404 elsewhere — all re-read through `x05`.  `denoteDev` is the abstract `C05.DeviceSpec` these
+    documents denote (the twelve text fields all present, `None` as an empty element; no icons; each
+    service with its five texts and `specOfScpd`; embedded devices recursively).  For **every
+    definition tree** (any depth and width; `d.wf`: twelve fields per device) whose denoted description
+    lies in C05's domain (`DeviceSpec.wf`: ids / UDNs / names unique per scope, types without `#` and free
+    to repeat among siblings, declared texts denote values; `urlsOk`), strict or non-strict:
+    C05's `asyncCreateDevice` — the merged model of `client_factory.py` with C08's 26 types — run
+    against the C14 server returns exactly `mirror (denote d)`, the object model `factory_mirror`
+    demands.  Proof: the factory uses the requester only through `serviceBody` (`createDevice_congr`),
+    reads every served SCPD and the device element as it reads C05's canonical rendering
+    (`serve_bridge`, `createDevice_bridge`), then C05's `factory_mirror`. -/
+theorem client_sees_device_tree_c05 (fs : Facts) (body : SvcBody) (base : Str) (nonStrict : Bool) (fuel : Nat)
+    (d : DevDef) (hwf : d.wf)
+    (hw : (denoteDev fs body d).wf fo Gen.C08Types.table base = true)
+    (hu : C05.urlsOk base (denoteDev fs body d) = true) (hf : (denoteDev fs body d).depth ≤ fuel) :
+    C05.asyncCreateDevice fo Gen.C08Types.table (serve14 fs body base d) nonStrict base fuel
+      = C05.mirror fo Gen.C08Types.table nonStrict base (denoteDev fs body d) := by
+  rw [← C05.factory_mirror fo (denoteDev fs body d) base nonStrict fuel hw hu hf]
+  unfold C05.asyncCreateDevice
+  have h1 : serve14 fs body base d base = .doc (x05 (serializeRoot d)) := by simp [serve14]
+  have h2 : C05.serve base (denoteDev fs body d) base = .doc (C05.renderRoot (denoteDev fs body d)) := by
+    simp [C05.serve]
+  rw [h1, h2]
+  have h3 : (x05 (serializeRoot d)).find .device .device = some (x05 (serializeDev d)) := by
+    have := x05_dev_named d
+    simp [serializeRoot, specVersion, C05.Xml.find, C05.Xml.children, C05.Xml.isNamed, C05.Xml.ns, C05.Xml.tag, leaf]
+      at this ⊢
+    exact this
+  have h4 : (C05.renderRoot (denoteDev fs body d)).find .device .device
+      = some (C05.renderDevice (denoteDev fs body d)) := by
+    cases d; simp [C05.renderRoot, C05.Xml.find, C05.Xml.children, denoteDev, C05.renderDevice, C05.Xml.isNamed,
+      C05.Xml.ns, C05.Xml.tag]
+  simp only [h3, h4]
+  rw [createDevice_congr fo _ _ _ nonStrict base (serve_bridge fo _ nonStrict fs body base d) fuel,
+    createDevice_bridge fo _ _ nonStrict base fs body fuel d hwf]
+
 end
+
+/-- non-vacuity of `client_sees_device_tree_c05`: a root with an embedded device, a service on each
+    level (same service *type* on both, as UPnP allows), the root's service with a ranged `ui2`, an
+    evented string and an action using one name for an in- and an out-argument; the denoted
+    description is inside C05's domain and the URLs inside its grammar -/
+example :
+    let fo : C08.FloatOps Unit := ⟨fun _ => [], fun _ => none, fun _ _ => true, fun _ _ => true⟩
+    let base := "http://10.0.0.1/a/desc.xml".toList
+    let vN : VarDef := ⟨"Vol".toList, "ui2".toList, false, some "0".toList, some "100".toList, none, some "7".toList⟩
+    let vS : VarDef := ⟨"Txt".toList, "string".toList, true, none, none, some ["a".toList, "b".toList], none⟩
+    let act : SAct := ⟨"SetVolume".toList, [⟨"Volume".toList, vN⟩], [⟨"Volume".toList, vS⟩]⟩
+    let s0 : SvcInfo := ⟨"urn:x:service:S:1".toList, "id0".toList, "/c0".toList, "/e0".toList, "/s0.xml".toList⟩
+    let s1 : SvcInfo := ⟨"urn:x:service:S:1".toList, "id1".toList, "/c1".toList, "/e1".toList, "/s1.xml".toList⟩
+    let body : SvcBody := fun s => if s.sid = "id0".toList then ([vN, vS], [act]) else ([], [])
+    let f : Nat → List (Option Str) := fun k =>
+      [some "urn:x:device:D:1".toList, some "F".toList, some "M".toList, none, none, some "N".toList, none, none, none,
+       some (("uuid:" ++ toString k).toList), none, none]
+    let d : DevDef := .mk (f 0) [s0] [.mk (f 1) [s1] []]
+    (denoteDev [] body d).wf fo Gen.C08Types.table base = true
+    ∧ C05.urlsOk base (denoteDev [] body d) = true ∧ (denoteDev [] body d).depth ≤ 2 := by
+  decide +kernel
+
+section
+variable {F : Type} (fo : C08.FloatOps F)
+
+/-! ### the C14 judge's view inside the composed statement
+
+The run-time judge (`svcMatches`: `varMatches`, `actMatches`) and the driver's correspondence keep
+C14's own minimal client model.  These theorems relate what that judge compares to the objects of
+C05's `mirror` in `client_sees_definition_c05` / `client_sees_device_tree_c05`. -/
+
+/-- the variable object in C05's mirror of the served description of `vd` carries the definition's
+    name, data type and evented flag (the untyped part of `varMatches`) -/
+theorem judge_var_in_mirror (nonStrict : Bool) (fs : Facts) (vd : VarDef) (m : C05.VarM F)
+    (h : C05.mirrorVar fo Gen.C08Types.table nonStrict (specOfVar fs vd) = .ok m) :
+    m.name = C05.stripWs vd.name ∧ m.dataType = vd.dtype ∧ m.sendEvents = vd.evented :=
+  mirror_var_header fo _ nonStrict fs vd m h
+
+/-- … and the action object carries exactly the argument list C14's `actMatches` compares: the
+    in-arguments then the out-arguments, each with its direction and related variable's name -/
+theorem judge_action_in_mirror (vars : List (C05.VarM F)) (sa : SAct) (m : C05.ActM)
+    (h : C05.mirrorAction vars (specOfAct sa) = .ok m) :
+    m.name = sa.name
+    ∧ m.args.map (fun g => (g.name, g.direction, g.related))
+        = sa.ins.map (fun x => (x.name, "in".toList, x.var.name)) ++ sa.outs.map (fun x => (x.name, "out".toList, x.var.name)) := by
+  obtain ⟨h1, _⟩ := C05.args_bound_by_name vars (specOfAct sa) m h
+  refine ⟨?_, ?_⟩
+  · have := C05.actionOf_name _ _ _ m (by simpa [C05.mirrorAction] using h)
+    simpa [specOfAct] using this
+  · rw [h1]
+    simp [specOfAct, specOfArg, C05.completeArg, List.filterMap_append, List.filterMap_map, Function.comp_def]
+
+end
+
+/-! ### the call half composed with C06 (request construction) -/
+
+/-- **Request half of `call_roundtrip`, with C06's `createRequest` as the client.**  For every
+    request the merged model of `UpnpAction.create_request` (C06: `validate_arguments`,
+    `_format_request_args`, the escape table and `quoteattr` namespace pinned from client.py in
+    `Gen.C06Types`) builds for an action and keyword arguments — under the codec interface `hagree`
+    (C06 renders for each in-argument the text C14's `out` renders; C06 proves its texts decode back,
+    `arg_text_decodes`; both sides are about to share the C08 type model) — the body reads back, by
+    C06's `body_reads_back`, as the envelope `e`; the `SOAPAction` header is the quoted
+    `serviceType#action`; and the C14 server model, given that header and the tree of `e`, accepts
+    the request, validates it and calls the handler with exactly the caller's typed values
+    (`kwOf`).  Names are XML names (`xmlNameOk`), the service type contains none of `# " }`. -/
+theorem call_request_c06 (O : C06.Oracles) (a : C06.ActionDecl) (kw : C06.Kwargs) (req : C06.Request)
+    (hreq : C06.createRequest O Gen.C06Types.escapeExtra Gen.C06Types.nsAttrQuoted a kw = .ok req)
+    (fs : Facts) (stype : Str) (sacts : List SAct) (sact : SAct) (args : List (Str × Val))
+    (ha : a.name = sact.name) (hst : a.serviceType = stype)
+    (hagree : C06.coerceArgs a.inArgs kw = .ok (sact.ins.map fun x => (x.name, out (argVal args x))))
+    (hxn : C06.xmlNameOk sact.name = true) (hxa : ∀ x ∈ sact.ins, C06.xmlNameOk x.name = true)
+    (hbr : '}' ∉ stype)
+    (h1 : '#' ∉ stype) (h2 : '"' ∉ stype) (h3 : '#' ∉ sact.name) (h4 : '"' ∉ sact.name)
+    (hfind : sacts.find? (fun x => x.name = sact.name) = some sact)
+    (hnd : (sact.ins.map (·.name)).Nodup) (hok : ArgsOk fs args sact.ins) :
+    ∃ e, C06.readEnvelope req.body = some e
+      ∧ req.headers.lookup "SOAPAction".toList = some ('"' :: stype ++ '#' :: sact.name ++ ['"'])
+      ∧ handlerInput fs sacts ⟨some ('"' :: stype ++ '#' :: sact.name ++ ['"']), some (y06 e.tree)⟩
+          = some (sact.name, kwOf args sact) :=
+  c06_request_reaches_handler O a kw req _ _ (fun name st args hn hargs => C06.body_reads_back name st args hn hargs)
+    hreq fs stype sacts sact args ha hst hagree hxn hxa hbr h1 h2 h3 h4 hfind hnd hok
 
 end Upnp.C14
